@@ -99,8 +99,68 @@ def spellings(rep):
     if w is not None:
         rep.violation({"name": f"format integer {w}", "kind": "format-integer-does-not-reparse", "spelling": w},
                       {"property": "C12", "part": 1, "spelling": w})
+    # The inclusion above is a statement about regular *languages*; the parser applies its regexes by
+    # prefix matching with ordered alternation.  So every class of spellings is also replayed on the
+    # real parser: strings drawn by the solver from each alternative of the output model (several
+    # lengths each) must be read back as one literal with the same value.
+    out["literal_replays"] = replay_spellings(rep, number_in)
     out["queries"] = queries
     return out
+
+
+SPELLING_CLASSES = {
+    "decimal": r"[0-9]+\.[0-9]+",
+    "exponent": r"[0-9]e[+-][0-9][0-9]+",
+    "mantissa-exponent": r"[0-9]\.[0-9]+e[+-][0-9][0-9]+",
+    "integer": r"0|[1-9][0-9]*",
+}
+
+
+def replay_spellings(rep, number_in, per_class=8):
+    from tensora.expression import ast as s_ast
+    from tensora.expression import parse_assignment
+
+    n = 0
+    for label, pat in SPELLING_CLASSES.items():
+        r = rex.to_z3(pat)
+        s = z3.String("w")
+        sv = z3.Solver()
+        sv.set("timeout", 20000)
+        sv.add(z3.InRe(s, r))
+        seen = []
+        for k in range(per_class):
+            sv.push()
+            sv.add(z3.Length(s) >= 3 + 2 * (k % 4) if label != "integer" else z3.Length(s) >= 1 + k)
+            for w in seen:
+                sv.add(s != z3.StringVal(w))
+            res = sv.check()
+            if res != z3.sat:
+                sv.pop()
+                continue
+            w = sv.model()[s].as_string()
+            sv.pop()
+            seen.append(w)
+            n += 1
+            text = f"A(i) = {w} * B(i)"
+            p = parse_assignment(text)
+            ok = isinstance(p, Success)
+            if ok:
+                lit = p.unwrap().expression.left
+                want = s_ast.Integer(int(w)) if label == "integer" else s_ast.Float(float(w))
+                ok = lit == want
+            if not ok:
+                rep.violation({"name": f"literal {w}", "kind": "literal-does-not-reparse", "spelling": w},
+                              {"property": "C12", "part": 1, "spelling": w, "class": label, "text": text,
+                               "result": repr(p)[:300]})
+    # and the spellings str() really produces for boundary values
+    for v in [2.5e-07, 1.5e-05, 1.2345678901234568e+16, 1e+16, 1e-05, 123.456, 5e-324, 1.7976931348623157e+308]:
+        n += 1
+        w = str(v)
+        p = parse_assignment(f"A(i) = {w}")
+        if not (isinstance(p, Success) and p.unwrap().expression == s_ast.Float(v)):
+            rep.violation({"name": f"literal {w}", "kind": "literal-does-not-reparse", "spelling": w},
+                          {"property": "C12", "part": 1, "spelling": w, "class": "str(float)", "result": repr(p)[:300]})
+    return n
 
 
 def replay_literal(spelling: str):
@@ -518,7 +578,7 @@ def run(tier):
         "distinct_nontrivial": sent["sentences"] + dep["trees"],
         "rule": "distinct texts / distinct trees; non-trivial = has at least one operator",
         "samples": [next(iter(sentences(4))), "T(i) = (a(i) - b(i)) * (c(i) - d(i))", sp["counterexamples"][:2]],
-        "spelling_queries": sp["queries"], "spelling_counterexamples": sp["counterexamples"], "live_patterns": sp["patterns"],
+        "spelling_queries": sp["queries"], "spellings_replayed_on_the_real_parser": sp.get("literal_replays"), "spelling_counterexamples": sp["counterexamples"], "live_patterns": sp["patterns"],
         "sentences": sent, "deparse_trees": dep, "formats_round_tripped": nf, "concrete_rule_cases": rules,
         "rule_sweep_assignments": n_rules,
         "known_findings_met": [k["id"] for k in rep.known],
